@@ -94,7 +94,7 @@ def verify(pid, x, src=None):
     print(pid, x, "confirmed" if meta["confirmed"] else "NOT CONFIRMED", f_wo_demo, d_with, d_without)
 
 
-def detect(pid, x, run_all=False, fresh=False):
+def detect(pid, x, run_all=False, fresh=False, also=()):
     dst = os.path.join(ROOT, "seeded", f"{pid}-{x}")
     meta = load_meta(dst)
     if fresh:
@@ -107,7 +107,7 @@ def detect(pid, x, run_all=False, fresh=False):
     try:
         assert sh(f"git -C {REPO} apply {dst}/patch.diff").returncode == 0, "patch does not apply to /repo"
         res = meta.get("detection", {})
-        order = [pid] + ([q for q in ALL if q != pid] if run_all else [])
+        order = [pid] + ([q for q in ALL if q != pid] if run_all else [q for q in also if q != pid])
         for q in order:
             if q in res and res[q].get("verdict") in ("VIOLATION", "silent"):
                 continue
@@ -121,7 +121,7 @@ def detect(pid, x, run_all=False, fresh=False):
             if verdict == "VIOLATION" and m and os.path.exists(m.group(1)):
                 shutil.copy(m.group(1), os.path.join(dst, f"replay-{q}.json"))
             print(pid, x, q, verdict, flush=True)
-            if verdict == "VIOLATION" and not run_all:
+            if verdict == "VIOLATION" and not run_all and not also:
                 break
         meta["detection"] = res
         meta["caught_by"] = sorted(q for q, v in res.items() if v["verdict"] == "VIOLATION")
@@ -137,7 +137,8 @@ if __name__ == "__main__":
     if phase == "verify":
         verify(pid, x, sys.argv[sys.argv.index("--src") + 1] if "--src" in sys.argv else None)
     else:
-        detect(pid, x, "--all" in sys.argv, "--fresh" in sys.argv)
+        also = tuple(sys.argv[sys.argv.index("--also") + 1].split(",")) if "--also" in sys.argv else ()
+        detect(pid, x, "--all" in sys.argv, "--fresh" in sys.argv, also)
         m = load_meta(os.path.join(ROOT, "seeded", f"{pid}-{x}"))
         if not m.get("caught_by") and "--all" not in sys.argv and "--target-only" not in sys.argv:
             detect(pid, x, True)
